@@ -1393,6 +1393,53 @@ def _tovec(x):
     return x
 
 
+pytrunc = sp.Function("pytrunc", real=True)       # conversion of a (non-integer) number to an integer dtype
+
+
+def _as_dtype(I, v, dtype, copy):
+    """numpy.array / asarray with a dtype: integer dtypes truncate, real dtypes drop an imaginary part; array() copies."""
+    kind = None
+    if dtype is not None:
+        nm = dtype if isinstance(dtype, str) else getattr(dtype, "name", None) or str(dtype)
+        nm = nm.rsplit(".", 1)[-1].lower()
+        if nm in ("int", "i", "i4", "i8", "int32", "int64", "intp", "l", "long", "uint8", "int_"):
+            kind = "int"
+        elif nm in ("float", "d", "f", "f4", "f8", "float32", "float64", "double", "float_"):
+            kind = "float"
+        elif nm in ("complex", "complex128", "complex64", "c16", "c8", "object", "o", "bool", "str"):
+            kind = None if nm.startswith(("complex", "c")) else nm
+            if kind in ("object", "o", "bool", "str"):
+                raise AnalysisError(f"numpy dtype {nm} is not modelled")
+        else:
+            raise AnalysisError(f"numpy dtype {nm} is not modelled")
+
+    def conv(x):
+        if isinstance(x, Vec):
+            items = [conv(i) for i in x.items]
+            if kind is None and not copy:
+                return x
+            return Vec(items, x.col)
+        if kind is None or not _alg(x):
+            return x
+        e = to_expr(x)
+        if kind == "int":
+            if e.is_integer:
+                return e
+            if e.is_number and e.is_real:
+                return sp.Integer(int(e))
+            return pytrunc(e)
+        if kind == "float":
+            if e.is_real is False or (e.is_real is None and e.has(sp.I)):
+                return sp.re(e)
+            return e
+        return x
+    if isinstance(v, Vec):
+        if kind is None and not copy:
+            return v
+        return conv(v) if kind is not None else Vec([conv(i) if isinstance(i, Vec) else i for i in v.items], v.col) if copy else v
+    return conv(v)
+
+
 def _math(I, name):
     m1 = lambda f: _map1(I, f)
     table = {
@@ -1400,8 +1447,8 @@ def _math(I, name):
         "expm1": m1(lambda x: sp.exp(x) - 1), "log10": m1(lambda x: sp.log(x, 10)),
         "cos": m1(sp.cos), "sin": m1(sp.sin), "radians": m1(lambda x: x * sp.pi / 180),
         "abs": m1(sp.Abs), "fabs": m1(sp.Abs), "floor": m1(sp.floor),
-        "asarray": lambda x, *a, **k: _tovec(x),
-        "array": lambda x, *a, **k: _tovec(x),
+        "asarray": lambda x, *a, **k: _as_dtype(I, _tovec(x), (list(a) + [k.get("dtype")])[0], copy=False),
+        "array": lambda x, *a, **k: _as_dtype(I, _tovec(x), (list(a) + [k.get("dtype")])[0], copy=True),
         "maximum": m1(lambda a, b: sp.Max(a, b)), "minimum": m1(lambda a, b: sp.Min(a, b)),
         "real": m1(sp.re), "imag": m1(sp.im),
     }
